@@ -213,6 +213,9 @@ class BoundMethod:
     def __repr__(self):
         return f"<bound {self.qualname}>"
 
+    def __call__(self, *a, **k):  # only so that functools.partial accepts it; the engine dispatches calls
+        raise TypeError("engine-level bound method called natively")
+
 
 class SFuture:
     """asyncio.Future (assumed contract, DESIGN 2.5): state 0 pending, 1 result,
